@@ -7,4 +7,6 @@ import c12_topo
 
 def run(ctx, replay):
     ctx.cov["rule"] = "C12 pipeline tier only (development stub)"
+    if replay and c12_topo.replay_topo(ctx, replay):
+        return
     c12_topo.run_topo(ctx)
